@@ -20,15 +20,16 @@ PROPS = {
         "level": "exploration",
         "runs": {"quick": 500000, "thorough": 10000000},
         "crash_clause": "C13.noerr",
-        "rule": "one run = one seeded tape: link kind, schedule variant (eager / would-block at frame boundaries / inside frames / everywhere / one frame per poll / heavy), 1..8 (thorough 1..40) packets with drawn flags, addresses, sizes (incl. 256+ and 4096-frame packets) and byte patterns, sends interleaved with polls, every device read answered from the tape (would-block, short read, Interrupted); plus the enumerated single would-block sweep (12 size pairs x 3 links x every unit position x bursts 1,2,50). Non-trivial = at least one of: poll ended on a partial packet, would-block inside a frame, multi-frame packet, >=2 packets, packets still queued at a return, sweep case. Distinct = distinct event-log hashes among the non-trivial runs.",
+        "rule": "one run = one seeded tape: link kind, schedule variant (eager / would-block at frame boundaries / inside frames / everywhere / one frame per poll / heavy), 1..8 (thorough 1..40) packets with drawn flags, addresses, sizes (incl. 256+ and 4096-frame packets) and byte patterns, sends interleaved with polls, every device read answered from the tape (would-block, short read, Interrupted); 40% of the runs duplex (both endpoints send and receive; optionally with transmit back-pressure, optionally with failing sends of the receiving endpoint, whose direction is then not judged); payloads incl. event encodings; plus the enumerated single would-block sweep (12 size pairs x 3 links x every unit position x bursts 1,2,50). Non-trivial = at least one of: poll ended on a partial packet, would-block inside a frame, multi-frame packet, >=2 packets, packets still queued at a return, sweep case. Distinct = distinct event-log hashes among the non-trivial runs.",
         "state_measure": "abstract state = (receiver phase: idle | partial with bucketed units taken) x bucketed units in flight x last poll delivered; transitions between consecutive polls",
         "probes": ["poll_ended_on_partial_packet", "wouldblock_inside_frame", "multi_frame_packet", "multi_packet_sequence",
                    "packets_queued_at_return", "frame_id_over_255", "sweep_case", "serial_short_read", "long_no_data_burst",
-                   "duplex_traffic", "identical_consecutive_packets", "nearly_identical_consecutive_packets", "sequence_over_256_packets", "serial_idle_read_returned_zero"],
+                   "duplex_traffic", "identical_consecutive_packets", "nearly_identical_consecutive_packets", "sequence_over_256_packets", "serial_idle_read_returned_zero",
+                   "duplex_with_transmit_back_pressure", "duplex_with_failing_sends_of_the_receiving_endpoint", "payload_is_an_event_encoding", "payload_begins_with_an_event_code"],
         "components": REAL_LINK,
         "assumptions": COMMON_ASSUMPTIONS + [
             "schedule space as the property states it: 'no data yet' between frames on CAN and serial port, between any two bytes on USART; data eventually arrives (consecutive would-blocks while data is in flight are bounded per run by 1, 3, 8 or 64)",
-            "the wire is FIFO and lossless and the sender's device is benign (sender-side reactions are C14's subject)",
+            "the wire is FIFO and lossless and the device of the judged sender is benign or only delays (failing sender devices are C14's subject; the direction sent through a failing device is not judged)",
         ],
     },
 }
@@ -38,18 +39,19 @@ PROPS["C06"] = {
     "level": "exploration",
     "runs": {"quick": 1000000, "thorough": 15000000},
     "crash_clause": "C06.total",
-    "rule": "one run = one seeded tape: link kind, polling schedule variant, 0..6 (thorough 0..40) episodes - each the frames of one source packet damaged by up to three faults (interrupted, dropped, duplicated, swapped, header rewritten, foreign frame interleaved, start frame retransmitted; bit flip, zero byte, truncated / extended / arbitrary body incl. length 0 and 255, lying or oversized declared data length, line noise; CAN: standard id, remote, arbitrary id, overrun with frame loss, multi-frame without id byte) - an optional stale partial packet matching the probes' device/type, then two complete probe packets back-to-back; optional receiver restarts. Non-trivial = a hostile prefix existed, or the first probe was dropped with an error, or a prefix frame/builder error was returned. Distinct = distinct event-log hashes among those.",
+    "rule": "one run = one seeded tape: link kind, polling schedule variant, 0..6 (thorough 0..40) episodes - each the frames of one source packet damaged by up to three faults (interrupted, dropped, duplicated, swapped, header rewritten, foreign frame interleaved, start frame retransmitted; bit flip, zero byte, truncated / extended / arbitrary body incl. length 0 and 255, lying or oversized declared data length, line noise; CAN: standard id, remote, arbitrary id, overrun with frame loss, multi-frame without id byte) - an optional stale partial packet matching the probes' device/type, then two complete probe packets back-to-back (distinct, identical, or differing in one respect; rarely of the maximum size class); optional receiver restarts; optionally the application also sends through the receiver object between polls (busy transmitter); rarely a very long no-data burst near the probes; serial clear(Input) during a poll may discard what is in flight. Non-trivial = a hostile prefix existed, or the first probe was dropped with an error, or a prefix frame/builder error was returned. Distinct = distinct event-log hashes among those.",
     "state_measure": "abstract state = bucketed frames taken x bucketed units in flight x last result class (ok / nothing / builder error / frame error / other)",
     "probes": ["hostile_prefix", "probe_first_dropped_with_error", "prefix_builder_error", "prefix_frame_error", "stale_partial_before_probes",
                "receiver_restarted", "fault_interrupted_packet", "fault_frame_dropped", "fault_frame_duplicated", "fault_frames_swapped",
                "fault_header_rewritten", "fault_foreign_frame", "fault_start_retransmitted", "fault_bit_flip", "fault_zero_in_body",
                "fault_body_truncated", "fault_body_extended", "fault_arbitrary_body", "fault_zero_length_frame", "fault_declared_length",
                "fault_line_noise", "fault_can_standard_id", "fault_can_remote", "fault_can_arbitrary", "fault_can_overrun",
-               "fault_can_multi_without_id"],
+               "fault_can_multi_without_id", "identical_probes", "receiver_object_also_sends", "long_no_data_burst_near_probes",
+               "first_probe_of_4096_frames", "prefix_ends_with_packet_of_4096_frames"],
     "components": REAL_LINK + ["real (as frame source only): Packet::to_frames, Frame::to_usart_frame / to_bxcan_frame build the valid frames that the fault injector then damages"],
     "assumptions": COMMON_ASSUMPTIONS + [
         "whole link frames only (a delimiter, a length byte L, exactly L body bytes; non-zero noise between frames), as the property states; byte loss inside a frame is not injected",
-        "a result is attributed to the link frame taken last from the device before the poll returned (the receivers read no further than the frame they report on)",
+        "one-phase runs attribute a result to the link frame taken last from the device before the poll returned (only for receivers that do not read ahead, established by calibration); two-phase runs drain the prefix first and attribute every later result to the probes",
     ],
 }
 
@@ -62,11 +64,12 @@ PROPS["C19"] = {
     "state_measure": "abstract state (sampled every 64 polls) = bucketed bytes held above fresh x bucketed announcement in flight x bucketed units in flight",
     "probes": ["partial_packet_held_between_polls", "boundary_after_multi_frame", "abandoned_giant_announcement", "history_over_1000_frames",
                "held_over_4k_for_large_packet", "fault_zero_length_frame", "fault_interrupted_packet", "boundaries",
-               "history_with_device_read_errors", "overlong_packet_with_reserved_bit"],
+               "history_with_device_read_errors", "overlong_packet_with_reserved_bit", "receiver_object_also_sends"],
     "components": REAL_LINK + ["harness: counting global allocator with per-allocation domain tags (SUT while inside a ross-protocol call, SIM in devices/harness); realloc modelled as allocate-copy-free"],
     "assumptions": COMMON_ASSUMPTIONS + [
-        "bounds: between polls live <= fresh + 256 B + 96 B x A, A = largest frame count announced by any start frame taken since the last boundary (model-free upper bound on the packet in flight); after Ok(_) or Err(BuilderError(_)) live <= fresh; no single allocation during a poll above max(1 KiB, 96 B x A, 4 x returned payload)",
+        "bounds: between polls live <= fresh + 1 KiB + 96 B x A, A = largest frame count announced by any start frame taken since the last boundary (model-free upper bound on the packet in flight); after Ok(_) or Err(BuilderError(_)) live <= fresh; no single allocation during a poll above max(1 KiB, 96 B x A, 4 x returned payload)",
         "runs in which the receiver panics or blocks are C06's subject and are counted as foreign, not as C19 violations",
+        "growth of the link object during its own send calls is set aside up to 64 B + 4 x the wire size of the largest packet sent so far (a reused transmit buffer is not receiver memory)",
     ],
 }
 
@@ -75,18 +78,18 @@ PROPS["C14"] = {
     "level": "fault_enumeration",
     "runs": {"quick": 1000000, "thorough": 15000000},
     "crash_clause": "C14.exact",
-    "rule": "enumeration: for each packet of a fixed list (quick: 0,3,8,9,14,15,22 bytes; thorough: 40 sizes 0..70) and each link, after a dry run that counts the device calls, every single fault position: USART a would-block burst (1,2,50) before every byte; CAN a would-block burst before and a displaced-frame report at every transmit; serial port a hard error (3 kinds), every short-write size 1..14 and an Interrupted at every write call, an error (3 kinds) at every flush call. Exploration: seeded runs with random packets (up to 28672 bytes) and random combinations/rates of the same reactions. Non-trivial = a reaction actually fired or the packet is multi-frame. Distinct = distinct event-log hashes among those. The enumeration is exhaustive over its stated list only.",
+    "rule": "enumeration: for each packet of a fixed list (quick: 0,3,8,9,14,15,22 bytes; thorough: 40 sizes 0..70) and each link, after a dry run that counts the device calls, every single fault position: USART a would-block burst (1,2,50) before every byte; CAN a would-block burst before and a displaced-frame report at every transmit; serial port a hard error (3 kinds), every short-write size 1..14 and an Interrupted at every write call, an error (3 kinds) and Interrupted 1,2,3,4,7 times in a row at every flush call. Exploration: seeded runs with random packets (up to 28672 bytes) and random combinations/rates of the same reactions. Non-trivial = a reaction actually fired or the packet is multi-frame. Distinct = distinct event-log hashes among those. The enumeration is exhaustive over its stated list only.",
     "state_measure": "not measured for this scenario (single call per run)",
     "probes": ["fired_would_block", "fired_short_write", "fired_interrupted", "fired_hard_write_error", "fired_flush_error",
                "fired_displaced_frame", "multi_frame_packet", "frame_id_over_255", "sent_ok", "sent_err_reported", "long_would_block_burst",
-               "several_packets_through_one_sender", "send_after_failed_send", "sender_has_receive_history"],
+               "several_packets_through_one_sender", "send_after_failed_send", "sender_has_receive_history", "flush_interrupted"],
     "components": [
         "real: /repo/src/interface/{can,usart,serial}.rs try_send_packet; Packet::to_frames; Frame::to_usart_frame / to_bxcan_frame; cobs",
         "real (as definition of the expected stream): the library's own fragmenter and frame encoders (their layout is C08-C10's subject)",
         "stub: CAN controller (bxcan::Can substitute), USART peripheral, OS serial port",
     ],
     "assumptions": COMMON_ASSUMPTIONS + [
-        "an Interrupted write may be retried or reported; a missing flush call is not flagged (only a failed flush that is ignored)",
+        "an Interrupted write or flush may be retried or reported; on the serial port Ok requires a flush that succeeded after the last write",
         "any Err result counts as 'returned as an error' for write/flush failures and displaced frames (the variant is not checked)",
     ],
 }
@@ -96,17 +99,17 @@ PROPS["C07"] = {
     "level": "exploration",
     "runs": {"quick": 3000000, "thorough": 30000000},
     "crash_clause": "C07.accept",
-    "rule": "one run = one seeded tape: 1..3 source packets (same/different device and error type, 1..13 frames, occasionally 256+ and thorough 4096 frames) fragmented by the library, a first frame offered to the constructor (source start frame, synthetic start frame announcing 1..4096 frames multi or single, or a non-start frame), then the remaining frames through a faulty channel (drop, duplicate, reorder, flag/address/start/multi/data-length rewrite, id rewritten to next+-1, +k, announced, announced+-1, random; foreign frames injected; late frames after completion), every add_frame compared with the acceptance model and the observers re-read after every step. Non-trivial = a frame was rejected, a packet completed, or the constructor refused a non-start frame. Distinct = distinct event-log hashes among those.",
+    "rule": "one run = one seeded tape: 1..3 source packets (same/different device and error type, 1..13 frames, occasionally 256+ and thorough 4096 frames) fragmented by the library, a first frame offered to the constructor (source start frame, synthetic start frame announcing 1..4096 frames multi or single, or a non-start frame), then the remaining frames through a faulty channel (drop, duplicate, reorder, flag/address/start/multi/data-length rewrite, id rewritten to next+-1, +k, announced, announced+-1, random, the right id plus a multiple of 4096 / 256, any 16-bit value; addresses with one bit flipped; sparse packets whose frames carry 0-2 data bytes; foreign frames injected; late frames after completion), every add_frame compared with the acceptance model and the observers re-read after every step. Non-trivial = a frame was rejected, a packet completed, or the constructor refused a non-start frame. Distinct = distinct event-log hashes among those.",
     "state_measure": "abstract state = bucketed accepted count x bucketed remaining count x whether the offered frame was acceptable",
     "probes": ["frame_rejected", "accepted_after_rejection", "completed", "constructor_refused_non_start", "announced_over_256",
                "single_start_announcing_more", "rejected_out_of_order", "rejected_single_frame", "rejected_too_many", "rejected_wrong_type",
-               "rejected_address", "chan_dropped", "chan_duplicated", "chan_reordered", "chan_rewritten", "chan_id_rewritten", "chan_foreign_injected"],
+               "rejected_address", "chan_dropped", "chan_duplicated", "chan_reordered", "chan_rewritten", "chan_id_rewritten", "chan_foreign_injected", "chan_id_beyond_12_bits", "sparse_source_packet"],
     "components": [
         "real: /repo/src/packet.rs PacketBuilder::{new, add_frame, build, frames_left, frame_count, expected_frame_count}, Packet::to_frames (as frame source)",
         "stub: the frame channel (drop/duplicate/reorder/rewrite/inject) and the acceptance model (written from the property statement)",
     ],
     "assumptions": COMMON_ASSUMPTIONS + [
-        "only well-formed frames are offered (<= 8 data bytes, id < 4096, unused bytes zero, last-frame id iff start flag), as frame decoders produce them",
+        "frames have <= 8 data bytes, unused bytes zero, last-frame id iff start flag; start frames announce 1..4096 frames (refusing larger announcements would be a legitimate robustness measure); continuation frames may carry any 16-bit id",
         "a rejection reason must be one that truly applies, not the one the current guard order yields; id-based reasons apply to non-start frames only",
     ],
 }
@@ -118,7 +121,7 @@ NODE_COMPONENTS = [
 ]
 NODE_ASSUMPTIONS = COMMON_ASSUMPTIONS + [
     "InterfaceError values are compared by debug image (the type has no PartialEq)",
-    "handlers transmit only to other devices from inside a delivery (as the property states); handler invocation order within one delivery is not constrained",
+    "handlers transmit only to other devices from inside a delivery (as C15 states), except: in the C16 check one handler may continue an own-address send (nested sends, the running handler may be re-entered, skipped or deferred), in the C17 check up to two handlers register further handlers from inside a dedicated delivery (only ids and the registry state afterwards are judged), in the C18 check one handler may perform an exchange of its own; handler invocation order within one delivery is not constrained",
     "attribution: when an expected handler does not fire, the registry itself is asked (remove of its id) to decide between a dispatch defect (C15/C16) and a registry defect (C17)",
 ]
 
@@ -127,34 +130,36 @@ PROPS["C15"] = {
     "level": "exploration",
     "runs": {"quick": 2500000, "thorough": 40000000},
     "crash_clause": "C15.fanout",
-    "rule": "one run = one seeded tape: own address (incl. 0xffff, 0x0000), a history of 1..24 (thorough 1..80) operations - add (capture-all or not; plain or transmitting handler), remove (live / stale / never issued id), tick against a drawn link result (packet to own / broadcast / other address, data or error packet; nothing; each of 18 link error values; optionally a second packet queued behind), send - each registry operation followed by a reveal delivery on both paths. Every tick is judged: at most one packet taken, fan-out multiset, result, re-entrant transmissions. Non-trivial = a probe fired (broadcast delivery, capture-all-only delivery, link error, nothing, id reuse, re-entrant send, queued second packet ...). Distinct = distinct event-log hashes among those.",
+    "rule": "one run = one seeded tape: own address (incl. 0xffff, 0x0000), a history of 1..24 (thorough 1..80) operations - add (capture-all or not; plain or transmitting handler), remove (live / stale / never issued id), tick against a drawn link result (packet to own / broadcast / other address, data or error packet; nothing; each of 30 link error values (incl. the io::ErrorKinds Interrupted, WouldBlock, TimedOut, UnexpectedEof, WriteZero); optionally a second packet queued behind), send - each registry operation followed by a reveal delivery on both paths. Every tick is judged: at most one packet taken, fan-out multiset, result, re-entrant transmissions. Non-trivial = a probe fired (broadcast delivery, capture-all-only delivery, link error, nothing, id reuse, re-entrant send, queued second packet ...). Distinct = distinct event-log hashes among those.",
     "state_measure": "abstract state = bucketed handler count x bucketed capture-all count x last operation kind",
     "probes": ["broadcast_packet_delivered", "foreign_packet_to_capture_all_only", "tick_on_link_error", "tick_on_nothing", "own_is_broadcast",
-               "second_packet_left_queued", "reentrant_send_with_other_handlers", "handler_sent_from_delivery", "id_reused_after_removal", "handler_removed"],
+               "second_packet_left_queued", "reentrant_send_with_other_handlers", "handler_sent_from_delivery", "id_reused_after_removal", "handler_removed",
+               "large_handler_table", "received_copy_of_last_sent_packet", "history_over_150_operations"],
     "components": NODE_COMPONENTS,
     "assumptions": NODE_ASSUMPTIONS,
 }
 PROPS["C16"] = dict(PROPS["C15"], **{
     "crash_clause": "C16.tx",
-    "rule": "same histories as C15; every send_packet is judged: destination own address => every local handler exactly once and on the link iff the own address is broadcast; otherwise on the link exactly once, unmodified, no local handler; the link's send outcome (ok or one of 18 error values) is what the caller gets. Non-trivial = a routing probe fired. Distinct = distinct event-log hashes among those.",
+    "rule": "same histories as C15; every send_packet is judged: destination own address => every local handler exactly once and on the link iff the own address is broadcast; otherwise on the link exactly once, unmodified, no local handler; the link's send outcome (ok or one of 31 error values) is what the caller gets. Non-trivial = a routing probe fired. Distinct = distinct event-log hashes among those.",
     "probes": ["loopback_only", "loopback_and_transmit_own_is_broadcast", "broadcast_destination_transmitted", "transmitted_to_other",
-               "send_error_returned", "handler_sent_from_delivery", "id_reused_after_removal"],
+               "send_error_returned", "handler_sent_from_delivery", "id_reused_after_removal", "nested_own_address_sends", "nested_own_address_sends_over_8_deep", "large_handler_table"],
 })
 PROPS["C17"] = dict(PROPS["C15"], **{
     "crash_clause": "C17.unique",
     "rule": "registry-heavy histories (40-80% add/remove: remove from the middle, id reuse, removal of stale and never-issued ids) interleaved with deliveries; after every registry operation a reveal step sends one own-address packet through tick and one through the loop-back path of send_packet and determines which handlers are live; removed handlers must never fire again on any delivery; at the end every id ever seen is removed once more and must answer Ok / NoSuchHandler as the model says. Non-trivial = a handler was removed, an unregistered id was removed, or an id was reused. Distinct = distinct event-log hashes among those.",
-    "probes": ["handler_removed", "remove_of_unregistered_id", "id_reused_after_removal", "id_reuse_with_neighbours", "reveal_steps"],
+    "probes": ["handler_removed", "remove_of_unregistered_id", "id_reused_after_removal", "id_reuse_with_neighbours", "reveal_steps", "handler_registered_by_a_handler", "large_handler_table"],
 })
 PROPS["C18"] = {
     "scenario": "S-NODE(exchange)",
     "level": "exploration",
     "runs": {"quick": 2500000, "thorough": 40000000},
     "crash_clause": "C18.first",
-    "rule": "one run = one seeded tape: own address, 0..3 handlers, 1..2 (thorough 1..4) exchanges, each with: single- or multi-reply form, capture mode, one of the 16 event kinds as requested type, a request addressed to own / broadcast / another device, an optional send error, an incoming queue of 0..12 entries (valid encodings of the requested and of other kinds, error-flagged, wrongly sized, addressed to own / broadcast / others, explicit 'nothing received'), optionally ending in one of 18 link errors, optionally with later traffic behind the stopping point. The request routing is compared with an ordinary send of the same request on an identically built twin node; the result, the wait callback's count and position in the global event sequence, and the entries left on the link are compared with the model. Non-trivial = any exchange probe fired. Distinct = distinct event-log hashes among those.",
+    "rule": "one run = one seeded tape: own address, 0..3 handlers, 1..2 (thorough 1..4) exchanges, each with: single- or multi-reply form, capture mode, one of the 16 event kinds or of 3 application-defined kinds (error-accepting, zero-sized, 256-byte value) as requested type, a request addressed to own / broadcast / another device, an optional send error, an incoming queue of 0..12 entries (valid encodings of the requested and of other kinds, error-flagged, wrongly sized, addressed to own / broadcast / others, explicit 'nothing received'), optionally ending in one of 30 link errors, optionally with later traffic behind the stopping point; rarely queues of 65-300 or 5000-12000 entries; in 30% of the exchanges the last entries arrive during the wait callback; in 8% of the tables one handler performs an exchange of its own while the request is routed. The request routing is compared with an ordinary send of the same request on an identically built twin node; the result, the wait callback's count and position in the global event sequence, and the entries left on the link are compared with the model. Non-trivial = any exchange probe fired. Distinct = distinct event-log hashes among those.",
     "state_measure": "abstract state = requested kind x form x capture mode x bucketed queue length x (link error, timeout)",
     "probes": ["exchange_first_match", "exchange_multiple_replies", "exchange_empty_list", "exchange_timeout", "exchange_link_error",
                "exchange_send_error", "exchange_skipped_nonmatching", "exchange_skipped_wrong_address", "exchange_left_later_traffic_queued",
-               "exchange_capture_all", "own_is_broadcast"],
+               "exchange_capture_all", "own_is_broadcast", "exchange_application_defined_kind", "exchange_long_queue", "exchange_queue_over_4096_entries",
+               "exchange_over_4096_replies", "exchange_performed_by_handler_during_routing", "replies_arrive_during_the_wait"],
     "components": NODE_COMPONENTS,
     "assumptions": NODE_ASSUMPTIONS + [
         "'decodes as the requested kind' is defined by the library's own decoder for that kind (its correctness is C03/C05/C11's subject); packets shorter than 6 bytes are not shown to the data-event decoder and undefined message-value images are not shown to the message decoder (both crash/UB today, C05's subject)",
@@ -165,16 +170,17 @@ PROPS["C01"] = {
     "level": "exploration",
     "runs": {"quick": 1000000, "thorough": 10000000},
     "crash_clause": "C01.ok",
-    "rule": "one run = one seeded tape: link kind, polling schedule variant (as C13, on both directions), node addresses (distinct incl. 0xffff / 0x0000, or both broadcast), 0..4 handlers on B and 0..3 on A with drawn capture-all flags, in a third of the runs B's handlers answer with acknowledgements through the protocol handle they are given; 1..12 (thorough 1..60) events over all 16 kinds with arbitrary field values (data events up to the 4096-frame limit) addressed to the peer, broadcast or a third device; sends interleaved with ticks of both nodes, every device read answered from the tape. After every step every handler log must be a prefix of its expectation and the newest entry must decode (with the decoder of the sent kind) to the sent value; at quiescence logs equal expectations. Non-trivial = multi-frame event, several events in flight, mixed handler table, third-device event, traffic in both directions or a broadcast node address. Distinct = distinct event-log hashes among those.",
+    "rule": "one run = one seeded tape: link kind, polling schedule variant (as C13, on both directions), node addresses (distinct incl. 0xffff / 0x0000, or both broadcast), 0..4 handlers on B and 0..3 on A with drawn capture-all flags, in a third of the runs B's handlers answer with acknowledgements through the protocol handle they are given; 1..12 (thorough 1..60) events over all 16 kinds with arbitrary field values (data events up to the 4096-frame limit) addressed to the peer, broadcast or a third device; sends interleaved with ticks of both nodes, every device read answered from the tape; swarm options: receiver handler tables with a history (34-66 handlers, removals, later additions), broadcasts from a node whose own address is broadcast, transmit back-pressure, one long no-data pause sat out tick by tick. After every step every handler log must be a prefix of its expectation and the newest entry must decode (with the decoder of the sent kind) to the sent value; at quiescence logs equal expectations. Non-trivial = multi-frame event, several events in flight, mixed handler table, third-device event, traffic in both directions or a broadcast node address. Distinct = distinct event-log hashes among those.",
     "state_measure": "abstract state = bucketed units in flight A->B x B->A x last top-level action",
     "probes": ["multi_frame_event", "several_events_in_flight", "mixed_handler_table", "event_for_third_device",
-               "both_directions_carried_traffic", "broadcast_node_address", "frame_id_over_255", "handler_sent_from_delivery"],
+               "both_directions_carried_traffic", "broadcast_node_address", "frame_id_over_255", "handler_sent_from_delivery",
+               "receiver_table_with_history", "broadcast_sent_by_node_whose_address_is_broadcast", "transmit_back_pressure", "long_no_data_pause"],
     "components": [
         "real: Protocol on both nodes, the real Can/Usart/Serial interface under each, Packet::to_frames, PacketBuilder, both frame codecs, all 16 event encoders and decoders, cobs",
         "stub: CAN controller (bxcan::Can substitute), USART peripheral, OS serial port, the wire (reliable FIFO per direction), the application",
     ],
     "assumptions": COMMON_ASSUMPTIONS + [
-        "the wire is reliable (hostile wires are C06's subject); two nodes have distinct addresses unless both are broadcast; events addressed to the sender itself are excluded (C16's loop-back rule)",
+        "the wire is reliable (hostile wires are C06's subject); two nodes have distinct addresses unless both are broadcast; events addressed to the sender itself are excluded (C16's loop-back rule) unless the sender's own address is the broadcast address",
         "padding bytes of MessageValue's in-memory image (uninitialised memory copied out by the encoder) are overwritten with tape-drawn bytes before the packet enters the simulation",
     ],
 }
